@@ -295,7 +295,7 @@ def E4() -> bool:
 
 
 def _e1_shards(tier):
-    base = {"max_dests": 3, "max_msgs": 3, "F": 3} if tier == "quick" else {"max_dests": 3, "max_msgs": 4, "F": 5}
+    base = {"max_dests": 3, "max_msgs": 3, "F": 3} if tier == "quick" else {"max_dests": 3, "max_msgs": 4, "F": 4}
     return [dict(base, prefix=p) for p in enumerate_prefixes(body_E1, "X", {}, base, 4 if tier == "quick" else 5)]
 
 
@@ -310,7 +310,7 @@ OBLIGATIONS = [
         shards=_e1_shards,
         twin=[{"max_dests": 3, "max_msgs": 3, "F": 3, "twin_label": "two-failures"}],
         timeout={"quick": 100, "thorough": 1200},
-        bounds={"quick": "<= 3 destinations, <= 3 messages (the first optionally a typed message whose serializer raises, i.e. replaced by its traceback + serialization_failure reports), optionally inside an action, <= 3 failing calls anywhere (incl. on reports)", "thorough": "<= 4 messages, <= 5 failing calls"},
+        bounds={"quick": "<= 3 destinations, <= 3 messages (the first optionally a typed message whose serializer raises, i.e. replaced by its traceback + serialization_failure reports), optionally inside an action, <= 3 failing calls anywhere (incl. on reports)", "thorough": "<= 4 messages, <= 4 failing calls"},
     ),
     Ob("E3", E3, body_E3, "X", desc="failures while the start-up buffer is re-delivered by add_destinations (inside or outside an action): one report per failure, same sequence for every destination", functions=["Destinations.add", "Destinations.send (logger=None)", "log_message", "Action.log"],
        twin=[{"F": 2, "twin_label": "failed-redelivery-inside-action"}], timeout={"quick": 100, "thorough": 300}, bounds={"quick": "1-2 buffered messages, 1-2 destinations, add_destinations inside/outside an action, <= 2 failing calls anywhere"}),
